@@ -9,6 +9,8 @@ for d in seeded/${1:-}*/; do
   out=$(/venv/bin/python -m sa check $prop --tier quick 2>&1); rc=$?
   git -C $R checkout -- . 
   rules=$(echo "$out" | grep -v KNOWN-FINDING | grep -o '\[R[^]]*\]' | sort -u | tr '\n' ' ')
-  echo "$id rc=$rc $rules"
+  exp=1; [ -f /verif/$d/expected_rc ] && exp=$(cat /verif/$d/expected_rc)
+  note=""; [ "$rc" = "$exp" ] && [ "$exp" != "1" ] && note=" (cannot decide - expected, see DESIGN 8.6)"
+  echo "$id rc=$rc$note $rules"
 done
 git -C $R status --short | head -3
